@@ -308,6 +308,15 @@ def _r2(repo, L):
         if src_ok and isinstance(e, ast.Call) and isinstance(e.func, ast.Attribute) and e.func.attr == "junction_tuple" and len(jcalls) == 1:
             ok = is_name(e.func.value, u) and len(e.args) == 1 and is_name(e.args[0], v)
             why = "pair comprehension does not encode (left, right)"
+    if not ok and why == "junction iteration idiom not recognised" and len(jcalls) == 1 and len(nexts) == 1 and len(loops) == 1:
+        # prev = next(itr); loop: add(prev.junction_tuple(next(itr)))  -- the right fragment is taken from the iterator in place and
+        # the left one is never replaced: every junction is measured from the first fragment
+        jc_ = jcalls[0]
+        pv_ = nexts[0].targets[0].id if isinstance(nexts[0].targets[0], ast.Name) else None
+        inline_next = len(jc_.args) == 1 and isinstance(jc_.args[0], ast.Call) and dotted(jc_.args[0].func) == "next"
+        restored = [n for n in walk_shallow(loops[0]) if isinstance(n, ast.Name) and n.id == pv_ and isinstance(n.ctx, ast.Store)]
+        if pv_ and inline_next and is_name(jc_.func.value, pv_) and not restored and any(x is jc_ for x in ast.walk(loops[0])):
+            why = f"'{pv_}' is never advanced in the loop: every junction is measured from the first fragment of the scaffold"
     L.check(ok, "R2", f.short, "each consecutive pair (prev, this) encoded once, prev := this afterwards", why, f.loc())
     # no shortcut exit: the only early return is the "no fragment at all" case (StopIteration of the first next())
     early = []
